@@ -61,3 +61,121 @@ def corpus_crates(ctx):
         c["_file"] = f
         out.append(c)
     return out
+
+
+# ---------------------------------------------------------------------------- N rules (thorough)
+def case_field(rule, name):
+    """Independent implementation of the six case rules for a snake_case field name."""
+    if rule in (None, "lowercase", "snake_case"):
+        return name
+    parts = name.split("_")
+    if rule == "PascalCase":
+        return "".join(p[:1].upper() + p[1:] for p in parts)
+    if rule == "camelCase":
+        s = "".join(p[:1].upper() + p[1:] for p in parts)
+        return s[:1].lower() + s[1:]
+    if rule == "SCREAMING_SNAKE_CASE":
+        return name.upper()
+    if rule == "kebab-case":
+        return name.replace("_", "-")
+    raise ValueError(rule)
+
+
+def case_variant(rule, name):
+    """Independent implementation of the case rules for a PascalCase variant name (enums default to snake_case)."""
+    if rule in (None, "PascalCase"):
+        return name
+    if rule == "lowercase":
+        return name.lower()
+    if rule == "camelCase":
+        return name[:1].lower() + name[1:]
+    snake = ""
+    for i, ch in enumerate(name):
+        if ch.isupper() and i > 0:
+            snake += "_"
+        snake += ch.lower()
+    if rule == "snake_case":
+        return snake
+    if rule == "SCREAMING_SNAKE_CASE":
+        return snake.upper()
+    if rule == "kebab-case":
+        return snake.replace("_", "-")
+    raise ValueError(rule)
+
+
+def name_table_rules(ctx, prefix, kind):
+    """Compare the name constants recovered from each derived from_list of the corpus with the
+    effective names computed independently from the declaration (rule N)."""
+    import re
+    from vlib import derived
+    fdir, crate, log = corpus(ctx)
+    if fdir is None:
+        return 0
+    exp = json.load(open(os.path.join(crate, "expected.json")))
+    src = open(os.path.join(crate, "src", "lib.rs")).read()
+    by_name = {r["name"]: r for r in exp["receivers"]}
+    n = 0
+    bodies = {}
+    for c in corpus_crates(ctx):
+        for b in ctx.all_bodies(c):
+            m = re.match(r"^<verif_corpus::(\w+)(?:<.*>)? as darling_core::from_meta::FromMeta>::from_list$", b.key)
+            if m and b.kind != "Closure":
+                bodies[m.group(1)] = b
+    for name, r in sorted(by_name.items()):
+        if r.get("trait") != "FromMeta" or r.get("kind") != kind or name not in bodies:
+            continue
+        cattrs = r.get("container") or []
+        rule = None
+        for a in cattrs:
+            mm = re.match(r'rename_all = "(.*)"', a)
+            if mm:
+                rule = mm.group(1)
+        # declaration text of this receiver
+        mdecl = re.search(r"// receiver %s\n(.*?)(?=\n// receiver |\Z)" % name, src, re.S)
+        decl = mdecl.group(1) if mdecl else ""
+        D = derived.DerivedFn(bodies[name])
+        got = sorted({nt[1] for nt in D.name_tests})
+        if kind == "struct":
+            body = re.search(r"pub struct %s[^{;(]*\{(.*?)\}\s*(?:\n|$)" % name, decl, re.S)
+            if not body:
+                continue
+            want = []
+            for fm in re.finditer(r"((?:#\[darling\([^\]]*\)\]\s*)*)pub\s+((?:r#)?\w+)\s*:", body.group(1)):
+                attrs, fname = fm.group(1), fm.group(2)
+                ren = re.search(r'rename = "([^"]*)"', attrs)
+                if re.search(r"\bskip\b", attrs) or re.search(r"\bflatten\b", attrs):
+                    continue
+                want.append(ren.group(1) if ren else case_field(rule, fname))
+            want = sorted(want)
+        else:
+            body = re.search(r"pub enum %s[^{]*\{\n(.*?)\n\}" % name, decl, re.S)
+            if not body:
+                continue
+            want = set()
+            pending = ""
+            depth = 0
+            for line in body.group(1).split("\n"):
+                s = line.strip()
+                if depth == 0 and s.startswith("#[darling("):
+                    pending += s
+                    continue
+                vm = re.match(r"^(\w+)\b", s) if depth == 0 else None
+                if vm and not s.startswith("#"):
+                    vname = vm.group(1)
+                    ren = re.search(r'rename = "([^"]*)"', pending)
+                    skip = re.search(r"\bskip\b", pending)
+                    pending = ""
+                    if not skip:
+                        want.add(ren.group(1) if ren else case_variant(rule or "snake_case", vname))
+                    # names of the fields of inline struct variants are dispatch constants too
+                    for fm in re.finditer(r"(?:#\[darling\(([^\]]*)\)\] )?(\w+): ", s[s.find("{") + 1:] if "{" in s else ""):
+                        attrs, fname = fm.group(1) or "", fm.group(2)
+                        ren = re.search(r'rename = "([^"]*)"', attrs)
+                        if re.search(r"\bskip\b", attrs):
+                            continue
+                        want.add(ren.group(1) if ren else case_field(rule or "snake_case", fname))
+            want = sorted(want)
+        n += 1
+        ctx.ob("%s.N.effective-names" % prefix, "verif_corpus::%s" % name, "dispatch constants (rename_all = %s)" % rule, got == want,
+               "derived from_list dispatches on %s; the declaration's effective names are %s" % (got, want))
+    return n
